@@ -138,6 +138,21 @@ pub fn decompose_dbg(
     (o, st)
 }
 
+/// all bits of a decomposition outcome (for "did the fault change it?")
+fn dec_bits(o: &DecOutcome) -> Vec<u64> {
+    match o {
+        DecOutcome::Ok(d) => {
+            let mut v = vec![1, d.det];
+            v.extend(&d.inverse);
+            v.extend(&d.qt);
+            v.extend(&d.qti);
+            v
+        }
+        DecOutcome::Err(e) => vec![2, hash_str(e)],
+        DecOutcome::Panicked(_) => vec![3],
+    }
+}
+
 /// Number of leading seam events the call WITH the stability test shares with the
 /// call WITHOUT it.  The two calls run the same code up to the point where the
 /// test starts, so this prefix is the decomposition proper (and, through a
@@ -353,11 +368,23 @@ pub fn run_case(case: &Case) -> CaseResult {
     match case {
         Case::Direct { mat, tol, faults, debug } => {
             let (o, st) = decompose_dbg(mat, *tol, faults, false, *debug);
-            let (violations, outcome) = match &o {
+            let (mut violations, outcome) = match &o {
                 DecOutcome::Ok(d) => (judge_ok(d, &mat.entries, mat.dim, *tol, faults.is_empty()), "ok"),
                 DecOutcome::Err(e) => (vec![], if e.contains("ZeroDet") { "zerodet" } else { "unstable" }),
                 DecOutcome::Panicked(_) => (vec![], "panicked"),
             };
+            // a fault is relevant only if it changes the decomposition: if the same
+            // fault with the test switched off returns the very decomposition the
+            // fault-free call returns, it hit arithmetic that only feeds the verdict
+            // (the detector, diagnostics), about which the property says nothing
+            if !violations.is_empty() && !faults.is_empty() && tol.is_some() {
+                let a = dec_bits(&decompose_dbg(mat, None, faults, false, *debug).0);
+                let b = dec_bits(&decompose_dbg(mat, None, &[], false, *debug).0);
+                if a == b {
+                    violations.clear();
+                    return CaseResult { violations, outcome: "fault_outside_decomposition", fired: st.fired };
+                }
+            }
             CaseResult { violations, outcome, fired: st.fired }
         }
         Case::DirectWide { mat, tol, fault } => {
@@ -388,7 +415,16 @@ pub fn run_case(case: &Case) -> CaseResult {
                 }
             };
             let (o, st) = sample_with_dbg(&*s, point, ed, *tol, *meta, faults, false, *debug);
-            let (violations, outcome) = judge_sample(&o, spec, *tol, faults.is_empty());
+            let (mut violations, outcome) = judge_sample(&o, spec, *tol, faults.is_empty());
+            if !violations.is_empty() && !faults.is_empty() && tol.is_some() {
+                // same relevance rule as in the direct leg, on the whole sample result
+                let a = sample_with_dbg(&*s, point, ed, None, true, faults, false, *debug).0;
+                let b = sample_with_dbg(&*s, point, ed, None, true, &[], false, *debug).0;
+                if a == b {
+                    violations.clear();
+                    return CaseResult { violations, outcome: "fault_outside_decomposition", fired: st.fired };
+                }
+            }
             CaseResult { violations, outcome, fired: st.fired }
         }
     }
@@ -719,6 +755,11 @@ impl C16 {
     fn cases_for(&self, seed: u64, index: u64, thorough: bool) -> (Vec<Case>, Option<Value>) {
         let mut rng = SplitMix::new(seed);
         let fixed = fixed_matrices();
+        // warm-up: once-per-process work inside the library (a machine-epsilon probe,
+        // say) must not sit in the traces the fault positions are taken from
+        let warm = MatCase { dim: 1, entries: vec![1.0f64.to_bits()], class: "warmup".into() };
+        let _ = decompose(&warm, Some(1e-6f64.to_bits()), &[], false);
+        let _ = decompose(&warm, None, &[], false);
         let sample_leg = index % 4 == 3;
         let mut cases = Vec::new();
         if index % 8 == 5 {
@@ -782,21 +823,51 @@ impl C16 {
                 }
             }
             // faults: reference traces with and without the test
-            let (_, st_none) = decompose(&mat, None, &[], true);
+            let (o_none, st_none) = decompose(&mat, None, &[], true);
             let tr_none = st_none.trace.unwrap_or_default();
             let exhaustive = mat.dim <= if thorough { 4 } else { 3 };
+            // "the decomposition proper" is decided by effect, not by position: an
+            // arithmetic event belongs to it iff disturbing it (test off) changes the
+            // decomposition that is returned.  Arithmetic that only feeds a verdict or
+            // diagnostics (the stability test itself, a residual computed for logging)
+            // never qualifies, whatever the build, settings or environment.
+            let base_bits = dec_bits(&o_none);
+            let is_relevant = |i: u64| -> bool {
+                let probe = [Fault { at: i, kind: FaultKind::Perturb(4) }];
+                let nan = [Fault { at: i, kind: FaultKind::Nan }];
+                dec_bits(&decompose(&mat, None, &probe, false).0) != base_bits
+                    || dec_bits(&decompose(&mat, None, &nan, false).0) != base_bits
+            };
+            let arith_none: Vec<u64> =
+                (0..tr_none.len() as u64).filter(|&i| kind::is_arith(tr_none[i as usize].kind)).collect();
+            // small dimensions: every position is classified; larger ones: a sample
+            let relevant: Vec<u64> = if exhaustive {
+                arith_none.iter().copied().filter(|&i| is_relevant(i)).collect()
+            } else {
+                let mut r: Vec<u64> = Vec::new();
+                let want = if thorough { 160 } else { 48 };
+                let mut tries = 0;
+                while r.len() < want && tries < 3 * want && !arith_none.is_empty() {
+                    tries += 1;
+                    let k = arith_none[rng.below(arith_none.len() as u64) as usize];
+                    if !r.contains(&k) && is_relevant(k) {
+                        r.push(k);
+                    }
+                }
+                r.sort_unstable();
+                r
+            };
             // tolerances used under faults: None (clause i) + three finite ones
             let ftols: Vec<Option<u64>> = vec![None, Some(1e-10f64.to_bits()), Some(1e-3f64.to_bits()), Some(f64::INFINITY.to_bits())];
             for t in &ftols {
                 let allowed: Vec<u64> = if t.is_none() {
-                    (0..tr_none.len() as u64).filter(|&i| kind::is_arith(tr_none[i as usize].kind)).collect()
+                    relevant.clone()
                 } else {
+                    // and the call with the test must run the same events up to there
                     let (_, st_t) = decompose(&mat, *t, &[], true);
                     let tr_t = st_t.trace.unwrap_or_default();
-                    non_detector_events(&tr_t, &tr_none)
-                        .into_iter()
-                        .filter(|&i| kind::is_arith(tr_t[i as usize].kind))
-                        .collect()
+                    let prefix = non_detector_events(&tr_t, &tr_none).len() as u64;
+                    relevant.iter().copied().filter(|&i| i < prefix).collect()
                 };
                 // only value events can carry a fault
                 if allowed.is_empty() {
@@ -880,7 +951,32 @@ impl C16 {
                 // first detector event = end of the common prefix
                 let first_det = if nd.len() == tr_t.len() { 0 } else { nd.len() as u64 };
                 let nf = if thorough { 60 } else { 25 };
-                let arith: Vec<u64> = (0..first_det).filter(|&i| kind::is_arith(tr_t[i as usize].kind)).collect();
+                let arith_all: Vec<u64> = (0..first_det).filter(|&i| kind::is_arith(tr_t[i as usize].kind)).collect();
+                // relevance by effect (see the direct leg): keep positions whose
+                // disturbance changes the decomposition / L matrix in the metadata of the
+                // call without the test; sampled, since a call has thousands of events
+                let (o0, _) = sample_with(&*s, &point, &ed, None, true, &[], false);
+                let dec0 = match &o0 {
+                    Outcome::Sample { meta: Some(m), .. } => parse_meta(m, spec.d).map(|(l, d, _)| (l, d.det, d.inverse)),
+                    _ => None,
+                };
+                let mut arith: Vec<u64> = Vec::new();
+                if !arith_all.is_empty() {
+                    for _ in 0..(3 * if thorough { 60 } else { 25 }) {
+                        let k = arith_all[rng.below(arith_all.len() as u64) as usize];
+                        if arith.contains(&k) {
+                            continue;
+                        }
+                        let (o1, _) = sample_with(&*s, &point, &ed, None, true, &[Fault { at: k, kind: FaultKind::Perturb(4) }], false);
+                        let dec1 = match &o1 {
+                            Outcome::Sample { meta: Some(m), .. } => parse_meta(m, spec.d).map(|(l, d, _)| (l, d.det, d.inverse)),
+                            _ => None,
+                        };
+                        if dec1 != dec0 {
+                            arith.push(k);
+                        }
+                    }
+                }
                 // one or two perturbations before the detector, then a tolerance BELOW the
                 // exactly recomputed distance of that very (faulted) result: the test must
                 // refuse.  Catches a test that looks at parts of the residual separately.
